@@ -1,5 +1,245 @@
-"""P-REPLAY for the qs server: behaviours chosen by TLC stepped through the real code."""
+"""P-REPLAY for the qs server: behaviours chosen by TLC (simulation of WorkQSim.tla with
+AtomicDrain = TRUE) are stepped through the real code with TLC's nondeterministic choices
+imposed (which blocked puller gets a job), and the projected real state is compared with TLC's
+state after every step."""
+import json
+import multiprocessing
+
+from . import qstrace
+from . import tlc
+
+FIELDS = ["count", "bound", "heaps", "waiters", "running", "stats", "now", "fwait", "jobs"]
+
+
+def sim_cfg(prop, histlen):
+    return ("SPECIFICATION SimSpec\n" +
+            qstrace.const_block(qstrace.WORKERS, qstrace.CHANNELS, qstrace.JOBIDS, ["k1"], maxjobs=6, maxtime=4,
+                                restart=(prop == "C18"), wait=(prop != "C16"), info=(prop == "C17"), drop=False,
+                                reconnect=True, atomic=True) +
+            "  HistLen = %d\nINVARIANTS EmitHist\nCONSTRAINT StopAtLen\nCHECK_DEADLOCK FALSE\n" % histlen)
+
+
+def norm_spec_state(st):
+    out = {
+        "count": st["count"],
+        "bound": {k: v for k, v in st["bound"].items() if v},
+        "heaps": {c: sorted(v) for c, v in st["heaps"].items()},
+        "waiters": {w: {"on": x["on"], "box": x["box"], "chs": sorted(x["chs"]) if x["on"] else []}
+                    for w, x in st["waiters"].items()},
+        "running": {w: list(v) for w, v in st["running"].items()},
+        "stats": st["stats"],
+        "now": st["now"],
+        "fwait": st["fwait"],
+        "jobs": st["jobs"],
+    }
+    return out
+
+
+def norm_real_state(p):
+    return {
+        "count": p["count"], "bound": dict(p["bound"]), "heaps": p["heaps"],
+        "waiters": {w: {"on": x["on"], "box": x["box"], "chs": x["chs"] if x["on"] else []} for w, x in p["waiters"].items()},
+        "running": p["running"], "stats": p["stats"], "now": p["now"], "fwait": p["fwait"], "jobs": p["jobs"],
+    }
+
+
+def diff(spec, real):
+    s, r = norm_spec_state(spec), norm_real_state(real)
+    out = []
+    for f in FIELDS:
+        if f == "jobs":
+            if len(s["jobs"]) != len(r["jobs"]):
+                out.append("jobs(len)")
+                continue
+            for i, (a, b) in enumerate(zip(s["jobs"], r["jobs"])):
+                if b.get("gone"):
+                    continue
+                b = {k: v for k, v in b.items() if k != "gone"}
+                if a != b:
+                    out.append("jobs[%d]" % (i + 1))
+        elif s[f] != r[f]:
+            out.append(f)
+    return out
+
+
+def to_op(last):
+    op = dict(last)
+    k = op["op"]
+    if k == "pull":
+        return {"op": "pull", "w": op["w"], "chs": sorted(op["chs"])}
+    if k == "add":
+        return {"op": "add", "id": op["id"], "ch": op["ch"], "prio": op["prio"], "tmo": op["tmo"], "ttl": op["ttl"]}
+    if k == "finish":
+        return {"op": "finish", "w": op["w"], "id": op["id"], "err": op["err"]}
+    if k in ("kill", "tick", "disconnect", "connect", "setinfo", "drop", "watchdog", "wait"):
+        return {x: op[x] for x in op if x not in ("blocked",)}
+    raise ValueError(k)
+
+
+def replay_one(hist):
+    """Returns None (agrees) or a dict describing the first disagreement."""
+    from . import qsdriver
+    plan = {}
+
+    def policy(serial, workers):
+        q = plan.get(serial)
+        if q:
+            w = q.pop(0)
+            if w in workers:
+                return w
+        return workers[0]
+
+    d = qsdriver.Driver(workers=qstrace.WORKERS, clients=qstrace.CLIENTS, policy=policy)
+    # cut the behaviour into segments: [ops...] then optionally a complete drain
+    i = 0
+    n = len(hist)
+    steps_done = 0
+    try:
+        while i < n:
+            ops = []
+            while i < n and hist[i]["last"]["op"] not in ("runloop", "restart"):
+                if hist[i]["last"]["op"] in ("deliver", "drained"):
+                    return {"machinery": "deliver outside a drain at step %d" % i}
+                ops.append(hist[i])
+                i += 1
+            # plan the hand-offs of this batch
+            for h in ops:
+                if h["last"]["op"] == "add" and h["last"]["new"] and h["last"]["to"] != "heap":
+                    plan.setdefault(h["st"]["count"], []).append(h["last"]["to"])
+            if ops:
+                e0 = len(d.events)
+                d.run_batch([to_op(h["last"]) for h in ops])
+                evs = d.events[e0:]
+                if d.errors:
+                    return {"step": steps_done, "problem": "server raised", "errors": d.errors}
+                if len(evs) != len(ops):
+                    return {"machinery": "batch of %d ops produced %d events" % (len(ops), len(evs))}
+                for h, e in zip(ops, evs):
+                    df = diff(h["st"], e["post"])
+                    if df:
+                        return {"step": steps_done, "op": h["last"], "differs": df, "spec": norm_spec_state(h["st"]),
+                                "real": norm_real_state(e["post"])}
+                    if h["last"]["op"] == "pull" and h["last"]["got"] != e.get("got"):
+                        return {"step": steps_done, "op": h["last"], "differs": ["pull result"], "real_got": e.get("got")}
+                    steps_done += 1
+            if i >= n:
+                break
+            if hist[i]["last"]["op"] == "restart":
+                e0 = len(d.events)
+                d.restart()
+                df = diff(hist[i]["st"], d.events[-1]["post"])
+                if df:
+                    return {"step": steps_done, "op": hist[i]["last"], "differs": df,
+                            "spec": norm_spec_state(hist[i]["st"]), "real": norm_real_state(d.events[-1]["post"])}
+                steps_done += 1
+                i += 1
+                continue
+            # a drain: runloop, deliver*, drained  (incomplete at the end of the behaviour: stop)
+            j = i + 1
+            delivers = []
+            while j < n and hist[j]["last"]["op"] == "deliver":
+                delivers.append(hist[j])
+                j += 1
+            if j >= n or hist[j]["last"]["op"] != "drained":
+                break
+            prev = hist[i]["st"]
+            for h in delivers:
+                if h["last"]["k"] == "kill":
+                    for w, x in h["st"]["waiters"].items():
+                        if x["on"] and x["box"] and prev["waiters"][w]["box"] != x["box"]:
+                            plan.setdefault(x["box"], []).append(w)
+                prev = h["st"]
+            e0 = len(d.events)
+            d.drain()
+            evs = d.events[e0:]
+            if d.errors:
+                return {"step": steps_done, "problem": "server raised", "errors": d.errors}
+            real_delivers = [e for e in evs if e["op"] == "deliver"]
+            prev = hist[i]["st"]
+            k = 0
+            for h in delivers:
+                lk, lw = h["last"]["k"], h["last"]["w"]
+                if lk == "value":
+                    pw = prev["waiters"][lw]
+                    silent = (not pw["on"]) or pw["box"] == 0 or \
+                        (prev["jobs"][pw["box"] - 1]["done"] and h["st"]["waiters"][lw]["on"])
+                elif lk == "evt":
+                    silent = prev["fwait"][lw] == 0
+                else:
+                    silent = False
+                prev = h["st"]
+                if silent:
+                    continue
+                if k >= len(real_delivers):
+                    return {"step": steps_done, "op": h["last"], "differs": ["delivery missing in the real run"],
+                            "real_events": [{x: y for x, y in e.items() if x != "post"} for e in evs]}
+                e = real_delivers[k]
+                k += 1
+                if (e["k"], e["w"]) != (h["last"]["k"], h["last"]["w"]):
+                    return {"step": steps_done, "op": h["last"], "differs": ["delivery order"],
+                            "real_event": {x: y for x, y in e.items() if x != "post"}}
+                df = diff(h["st"], e["post"])
+                if df:
+                    return {"step": steps_done, "op": h["last"], "differs": df, "spec": norm_spec_state(h["st"]),
+                            "real": norm_real_state(e["post"])}
+                steps_done += 1
+            if k != len(real_delivers):
+                return {"step": steps_done, "differs": ["extra delivery in the real run"],
+                        "real_events": [{x: y for x, y in e.items() if x != "post"} for e in evs]}
+            df = diff(hist[j]["st"], evs[-1]["post"])
+            if df:
+                return {"step": steps_done, "op": {"op": "drained"}, "differs": df, "spec": norm_spec_state(hist[j]["st"]),
+                        "real": norm_real_state(evs[-1]["post"])}
+            steps_done += 1
+            i = j + 1
+    finally:
+        d.close()
+    return {"ok": True, "steps": steps_done}
+
+
+def _worker(hists):
+    out = []
+    for idx, h in hists:
+        try:
+            r = replay_one(h)
+        except Exception as e:          # noqa: BLE001
+            r = {"machinery": "driver exception %r" % (e,)}
+        out.append((idx, r))
+    return out
 
 
 def replay_behaviours(ctx, prop, quick):
-    return
+    histlen = 16 if quick else 24
+    want = 2000 if quick else 30000
+    res = tlc.run(ctx, "WorkQSim", sim_cfg(prop, histlen), name="sim_replay", simulate=max(10, want // ctx.ncpu),
+                  depth=histlen + 1, workers=ctx.ncpu, timeout=1200)
+    if not res.ok:
+        ctx.machinery("simulation for replay failed: %s %s\n%s" % (res.kind, res.name, res.out[-1500:]))
+    hists = res.emitted[:want]
+    if not hists:
+        ctx.machinery("TLC emitted no behaviours for replay")
+    items = list(enumerate(hists))
+    pool = multiprocessing.get_context("fork").Pool(ctx.ncpu)
+    try:
+        parts = [items[k::ctx.ncpu * 2] for k in range(ctx.ncpu * 2)]
+        results = [x for part in pool.map(_worker, [p for p in parts if p]) for x in part]
+    finally:
+        pool.close()
+        pool.join()
+    steps = 0
+    agreed = 0
+    for idx, r in results:
+        if r.get("machinery"):
+            ctx.machinery("replay driver: %s (behaviour %d)" % (r["machinery"], idx))
+        if r.get("ok"):
+            agreed += 1
+            steps += r["steps"]
+            continue
+        op = r.get("op", {})
+        key = "qs replay differs: op=%s fields=%s" % (op.get("op"), ",".join(r.get("differs", [r.get("problem", "?")])))
+        ctx.violation(key, "the real queue server does not follow the TLC behaviour at step %s" % r.get("step"),
+                      {"behaviour": [h["last"] for h in hists[idx]], "disagreement": r})
+    ctx.cover(traces_validated_against_impl=agreed, transitions=steps)
+    ctx.set_cover(replayed_behaviours=agreed, replayed_steps=steps, replay_behaviour_length=histlen)
+    h = hists[0]
+    ctx.sample({"kind": "TLC behaviour replayed into the real server (actions only)", "actions": [x["last"] for x in h]})
